@@ -269,7 +269,9 @@ def run(ctx):
             ix = hq.Index(b)
             cf, cp = dom.one_call(b, full), dom.one_call(b, part)
             fin = ix.canon({"k": "Local", "name": "finished", "lid": _lid(b, "finished")})
-            okf = fin in dom.conds(ix, cf, ("if",)) and ("!" + fin) in dom.conds(ix, cp, ("else",))
+            kinds = ("if", "else", "guard", "guard-else")          # `if f { full } else { part }`, or an early return of one of them
+            okf = fin in dom.conds(ix, cf, kinds) and ("!" + fin) in dom.conds(ix, cp, kinds) and \
+                ("!" + fin) not in dom.conds(ix, cf, kinds) and fin not in dom.conds(ix, cp, kinds)
             d = ix.canon.defs.get(_lid(b, "finished"))
             okd = d is not None and H.strip_generics(H.callee(hq.peel(d[1])) or "") == FD + "::is_finished"
             ctx.check(okf and okd, RS, fn, b["file"], "full drain iff is_finished(), otherwise the window-retaining routine",
